@@ -286,7 +286,7 @@ func init() {
 		ID:    "C09",
 		Level: "exploration",
 		Rule: "(1) four base configurations of 7-10 atoms (service attributes incl. ordered calls/tags; meta + parameters; services + fields + decorators + version; null-valued parameters, arguments and fields + a todo service carrying left-over arguments and calls) x every assignment of the atoms to 3 files that respects the order of appended atoms: -o bytes equal the single-file form; (2) 23 overriding pairs (incl. later mappings that are larger than everything merged before, and a user function named like a built-in) (decoy in an earlier file, real value later; empty arguments do not replace) x 3 file placements; (3) file naming / pattern assignment: explicit paths in both orders, one glob, two globs, a directory glob whose lexical path order differs from directory order, uncleaned patterns; " +
-			"(4) algebra on the real input.Merge: associativity for all triples and identity for all elements of a universe of 497 inputs (each attribute absent / v1 / v2, two attributes at a time; thorough: all triples, quick: all triples over the single-attribute elements). non-trivial = more than one file involved; distinct = distinct split / pair / triple",
+			"(5) nine spellings of an empty file (zero bytes, blank lines, comment only, bare document markers, {}, ~) at every position of a three-file configuration; (4) algebra on the real input.Merge: associativity for all triples and identity for all elements of a universe of 497 inputs (each attribute absent / v1 / v2, two attributes at a time; thorough: all triples, quick: all triples over the single-attribute elements). non-trivial = more than one file involved; distinct = distinct split / pair / triple",
 		Assumptions: []string{"the single-file equivalent is built from the abstract atoms (never by merging YAML); merged Input values are compared structurally, not distinguishing nil from empty collections"},
 		BudgetQuick: 280 * time.Second, BudgetThorough: 1500 * time.Second,
 		Run: func(w *W) {
@@ -559,6 +559,45 @@ func init() {
 					}
 					c.Distinct("nontrivial", c.ID)
 				})
+			}
+			// the empty file is the identity at file level too: every spelling of "no content" at every position
+			for ei, empty := range []string{"", "\n", "  \n\n", "# only a comment\n", "---\n", "{}\n", "~\n", "--- # nothing\n...\n", "\n# comment\n\n"} {
+				for pos := 0; pos < 4; pos++ {
+					ei, empty, pos := ei, empty, pos
+					id := fmt.Sprintf("identity-file/%d/position%d", ei, pos)
+					w.Case(id, func(c *C) {
+						a := c09overrideContext()
+						b := &Cfg{Params: []Param{{"later", 2}}, Services: []Service{{Name: "s1", Calls: []Call{{Method: "Set1", Args: []any{"x"}}}}}}
+						whole := c09overrideContext()
+						whole.Params = append(whole.Params, Param{"later", 2})
+						svcIn(whole, "s1").Calls = []Call{{Method: "Set1", Args: []any{"x"}}}
+						want := w.Build([]File{{"c.yaml", whole.YAML()}})
+						var files []File
+						var patterns []string
+						switch pos {
+						case 0:
+							files = []File{{"0.yaml", empty}, {"1.yaml", a.YAML()}, {"2.yaml", b.YAML()}}
+						case 1:
+							files = []File{{"0.yaml", a.YAML()}, {"1.yaml", empty}, {"2.yaml", b.YAML()}}
+						case 2:
+							files = []File{{"0.yaml", a.YAML()}, {"1.yaml", b.YAML()}, {"2.yaml", empty}}
+						case 3:
+							files = []File{{"0.yaml", empty}, {"1.yaml", a.YAML()}, {"2.yaml", empty}, {"3.yaml", b.YAML()}, {"4.yaml", empty}}
+							patterns = []string{"*.yaml"}
+						}
+						var got BuildResult
+						if patterns != nil {
+							got = w.BuildPatterns(files, patterns)
+						} else {
+							got = w.Build(files)
+						}
+						c.Distinct("all", id)
+						c.Distinct("nontrivial", id)
+						if !want.OK() || !got.OK() || want.Output != got.Output {
+							c.Violation("empty-file-not-identity", fmt.Sprintf("a file holding %q (no content) at position %d changes the result: accepted=%v\n%s", empty, pos, got.OK(), strings.Join(ErrorLines(got.Out), "\n")), FilesMap(files), nil)
+						}
+					})
+				}
 			}
 			w.Case("algebra/identity", func(c *C) {
 				for i, a := range ins {
